@@ -968,6 +968,53 @@ def describe_place(body, place, depth, _seen):
 Body.describe = lambda self, operand, depth=16: describe(self, operand, depth)
 
 
+def _guard_to_strings(body, g, labels):
+    out = []
+    if g is None:
+        return out
+    if g["kind"] == "variant":
+        ds = sorted(describe_place(body, g["place"], 16, set()))
+        for lab in labels:
+            for d in ds:
+                out.append("%s=discr(%s)" % (lab, d))
+    elif g["kind"] == "bool":
+        val = labels[0] if labels else None
+        if g.get("cmp"):
+            op, a, b = g["cmp"]
+            da = sorted(describe(body, a))
+            db = sorted(describe(body, b))
+            for x in da:
+                for y in db:
+                    out.append("%s=%s(%s, %s)" % (val, op, x, y))
+        elif g.get("call") is not None:
+            c = g["call"]
+            argd = []
+            for o in c.args[:3]:
+                ds = sorted(describe(body, o))
+                argd.append("|".join(ds[:3]))
+            out.append("%s=%s(%s)" % (val, short_fn(c.callee), ", ".join(argd)))
+        elif g.get("place") is not None:
+            for d in sorted(describe_place(body, g["place"], 16, set())):
+                out.append("%s=%s" % (val, d))
+    elif g["kind"] == "int":
+        # integer switch (e.g. `match field.id() { 0 => .., 1 => .., _ => .. }`)
+        if g.get("call") is not None:
+            c = g["call"]
+            argd = []
+            for o in c.args[:3]:
+                ds = sorted(describe(body, o))
+                argd.append("|".join(ds[:3]))
+            subj = ["%s(%s)" % (short_fn(c.callee), ", ".join(argd))]
+        elif g.get("place") is not None:
+            subj = sorted(describe_place(body, g["place"], 16, set()))
+        else:
+            subj = ["?"]
+        for lab in labels:
+            for sj in subj:
+                out.append("%s=int(%s)" % (lab, sj))
+    return out
+
+
 def guard_strings(body, bb):
     """conditions that hold on entry to block bb (edge dominance), as strings:
          'Some=discr(self.conns[id])'            variant switch
@@ -975,49 +1022,29 @@ def guard_strings(body, bb):
          'False=Lt(ConnectionState::version(self.conns[id]), const:…V1_19)'  bool from a comparison"""
     out = []
     for (u, g, labels) in body.dominating_guards(bb):
-        if g is None:
-            continue
-        if g["kind"] == "variant":
-            ds = sorted(describe_place(body, g["place"], 16, set()))
-            for lab in labels:
-                for d in ds:
-                    out.append("%s=discr(%s)" % (lab, d))
-        elif g["kind"] == "bool":
-            val = labels[0] if labels else None
-            if g.get("cmp"):
-                op, a, b = g["cmp"]
-                da = sorted(describe(body, a))
-                db = sorted(describe(body, b))
-                for x in da:
-                    for y in db:
-                        out.append("%s=%s(%s, %s)" % (val, op, x, y))
-            elif g.get("call") is not None:
-                c = g["call"]
-                argd = []
-                for o in c.args[:3]:
-                    ds = sorted(describe(body, o))
-                    argd.append("|".join(ds[:3]))
-                out.append("%s=%s(%s)" % (val, short_fn(c.callee), ", ".join(argd)))
-            elif g.get("place") is not None:
-                for d in sorted(describe_place(body, g["place"], 16, set())):
-                    out.append("%s=%s" % (val, d))
-        elif g["kind"] == "int":
-            # integer switch (e.g. `match field.id() { 0 => .., 1 => .., _ => .. }`)
-            if g.get("call") is not None:
-                c = g["call"]
-                argd = []
-                for o in c.args[:3]:
-                    ds = sorted(describe(body, o))
-                    argd.append("|".join(ds[:3]))
-                subj = ["%s(%s)" % (short_fn(c.callee), ", ".join(argd))]
-            elif g.get("place") is not None:
-                subj = sorted(describe_place(body, g["place"], 16, set()))
-            else:
-                subj = ["?"]
-            for lab in labels:
-                for sj in subj:
-                    out.append("%s=int(%s)" % (lab, sj))
+        out.extend(_guard_to_strings(body, g, labels))
     return out + _equivalent_forms(out)
+
+
+def edge_strings(body, u, v):
+    """the condition under which the switch at block u takes the edge to v, in the format of guard_strings"""
+    if body.blocks[u]["t"]["k"] != "switch":
+        return []
+    out = _guard_to_strings(body, body.switch_guard(u), body.edge_label(u, v) or [])
+    return out + _equivalent_forms(out)
+
+
+def edges_matching(body, patterns):
+    """set of CFG edges (u, v) whose condition matches one of the regexes"""
+    rxs = [re.compile(p) for p in patterns]
+    out = set()
+    for u in body.live_blocks():
+        if body.blocks[u]["t"]["k"] != "switch":
+            continue
+        for v in set(body.succ(u)):
+            if any(rx.search(x) for x in edge_strings(body, u, v) for rx in rxs):
+                out.add((u, v))
+    return out
 
 
 _SWAP = {"eq": "eq", "ne": "ne", "lt": "gt", "gt": "lt", "le": "ge", "ge": "le", "Eq": "Eq", "Ne": "Ne", "Lt": "Gt", "Gt": "Lt", "Le": "Ge", "Ge": "Le"}
@@ -1100,6 +1127,7 @@ def base_local(body, operand, depth=8):
 
 
 Body.base_local = lambda self, operand: base_local(self, operand)
+Body.edges_matching = lambda self, patterns: edges_matching(self, patterns)
 
 
 def edge_labels_reaching(body, u, bb):
